@@ -1,11 +1,15 @@
 (* sx interface for C13.
    input : ( mode fuel A B oracle woracle )
-     mode   : 0 ParallelSpecFinder, 1 EqPathParallelSpecFinder, 3 EqPathParallelSpecFinder with the proposed
-              repair findings/eqpath_unvalidated_child_paths.diff (the harness looks whether the class
-              overrides _maps_are_matched),
+     mode   : 0 ParallelSpecFinder, 3 EqPathParallelSpecFinder as it is since fix 8a96a0c (it overrides
+              _maps_are_matched: the second final walk, pw = true), 1 EqPathParallelSpecFinder before that fix
+              (pw = false; sent only if the class does not override _maps_are_matched, i.e. never on /repo as it is),
               9 the real run stopped before ParallelInfo read the rule databases (a searcher without a
                 specification, a rule database that is not RuleDB): nothing to model, the answer is (9)
-     fuel   : recursion-depth budget (the harness sends a bound that always suffices)
+     fuel   : a LOWER bound for the recursion-depth budget; the budget actually used is computed here from the
+              two universes: fuel = max(sent, run_fuel s1 s2), wfuel = run_wfuel s1 s2 (Parallel/Fuel.v), which
+              are at least the bounds of the termination theorems: status 2 cannot occur
+              (C13_harness_never_out_of_fuel; EqPath: for oracles answering every question — an unanswered
+              question is status 19, never 2 ... by the structure of eq_path_matches, not by theorem)
      A, B   : how each universe is obtained
               (0 side)      given (the synthetic stream): side = ( root ((label atom_identity) ...)
                             ((label (((child ...) kind) ...)) ...) )
@@ -16,7 +20,7 @@
                             iterated the pruned rules up to equivalence
      oracle : ((id1 id2 pid1 pid2 (children1) (children2) 0/1) ...) the answers of _eq_path_matches at its
               cache misses during the search of the real run, by cache key (modes 1, 3); pid = -1 for the root
-     woracle: the same for the second walk of the proposed repair (mode 3; fresh cache, final label maps)
+     woracle: the same for the second walk of _maps_are_matched (mode 3; fresh cache, final label maps)
    output: ( status keys1 keys2 asked c1 side1 c2 side2 )
      status : 0 find() returned None, 1 two label maps, 2 out of fuel, 8 a universe was not built (see c1,
               c2), 10+c exception c (1 KeyError, 2 IndexError, 9 a question the replayed oracle has no
@@ -28,7 +32,7 @@
               4 RuntimeError)
      side   : the universe built (empty when given or not built), in the format of the input *)
 From Coq Require Import ZArith List Bool.
-From CSS Require Import Base.Sx Base.PyList Spec.Extractor Parallel.Model Parallel.InfoModel.
+From CSS Require Import Base.Sx Base.PyList Spec.Extractor Parallel.Model Parallel.InfoModel Parallel.Fuel.
 Import ListNotations.
 Open Scope Z_scope.
 
@@ -74,8 +78,6 @@ Definition dec_answer (s : sx) : qkey * bool :=
     (sx_nats (sx_nth s 4), sx_nats (sx_nth s 5))),
    sx_bool (sx_nth s 6)).
 
-Definition size_of (d : smap) : nat := S (length d + fold_right (fun e a => (length (snd e) + a)%nat) O d).
-
 Definition enc_outcome (s1 s2 : side) (o : outcome) (asked : list qkey) : list sx :=
   let q := L (map enc_qkey asked) in
   match o with
@@ -93,13 +95,14 @@ Definition run_c13 (inp : sx) : sx :=
   let mode := sx_Z (sx_nth inp 0) in
   if mode =? 9 then L [I 9]
   else
-    let fuel := sx_nat (sx_nth inp 1) in
+    let sent := sx_nat (sx_nth inp 1) in
     let '(c1, u1, e1) := universe_arg (sx_nth inp 2) in
     let '(c2, u2, e2) := universe_arg (sx_nth inp 3) in
     let tail := [I c1; e1; I c2; e2] in
     match u1, u2 with
     | Some s1, Some s2 =>
-      let wfuel := (fuel * fuel + fuel)%nat in
+      let fuel := harness_fuel sent s1 s2 in
+      let wfuel := run_wfuel s1 s2 in
       if mode =? 0 then L (enc_outcome s1 s2 (find_base s1 s2 fuel wfuel) [] ++ tail)
       else
         let table := map dec_answer (sx_list (sx_nth inp 4)) in
